@@ -95,7 +95,8 @@ and parse_list st n =
     v :: rest end
 
 type case =
-  | CKeys of string * bytes * gval * impl_result * bool   (* stream, locator, value, result, pruned *)
+  | CKeys of string * bytes * gval * impl_result * bool * string
+      (* stream, locator, value, result, pruned, digest of the input tokens *)
   | CTitle of bytes * bytes
   | CSplit of bytes * bytes list
 
@@ -112,23 +113,31 @@ let parse_result (t : string list) : impl_result =
        | _ -> raise (Bad "result kind"))
   | _ -> raise (Bad "result")
 
-let parse_case (line : string) : case =
+(* a line is `H K ..`, `H T ..`, `H S ..` (starts a history) or `K ..` (a
+   further call in the same process, same history) *)
+let parse_case (line : string) : bool * case =
   match split_on ";" (tokens line) with
   | [opt; outt; _] ->
-      (match opt with
-       | "H" :: "K" :: stream :: loc :: origin ->
-           let origin = (match origin with
+      let (starts, opt) = (match opt with
+        | "H" :: r -> (true, r)
+        | "K" :: _ -> (false, opt)
+        | _ -> raise (Bad "case")) in
+      (starts,
+       match opt with
+       | "K" :: stream :: loc :: origin ->
+           let vt = (match origin with
              | "G" :: r -> r
              | "X" :: _ :: _ :: r -> r
              | _ -> raise (Bad "origin")) in
-           let st = { toks = origin } in
+           let st = { toks = vt } in
            pruned := false;
            let v = parse_value st in
            if st.toks <> [] then raise (Bad "trailing value tokens");
-           CKeys (stream, bytes_of_token loc, v, parse_result outt, !pruned)
-       | ["H"; "T"; inp] ->
+           CKeys (stream, bytes_of_token loc, v, parse_result outt, !pruned,
+                  Digest.string (String.concat " " (loc :: origin)))
+       | ["T"; inp] when starts ->
            (match outt with [o] -> CTitle (bytes_of_token inp, bytes_of_token o) | _ -> raise (Bad "title output"))
-       | ["H"; "S"; inp] ->
+       | ["S"; inp] when starts ->
            (match outt with
             | n :: ps when List.length ps = int_of_string n -> CSplit (bytes_of_token inp, List.map bytes_of_token ps)
             | _ -> raise (Bad "split output"))
@@ -137,6 +146,13 @@ let parse_case (line : string) : case =
 
 let class_name = function
   | DPanic -> "panic" | DError -> "error" | DKeys -> "keys" | DErrKeys -> "errkeys"
+
+(* verdict on one case *)
+type verdict = {
+  v_acc : string option;     (* divergence class, None = the model reproduces the result *)
+  v_mon : bool;
+  v_oom : bool; v_embnil : bool; v_pruned : bool; v_fan : int;
+}
 
 (* ---- Coq term printers ---- *)
 (* a byte string as (hx <length> 0x<hex digits>): one numeral instead of a list of numerals
@@ -174,39 +190,81 @@ let () =
   let total = List.length lines in
   let stride = if coq_max <= 0 then max_int else max 1 (total / coq_max) in
   let coq_cases = ref [] in
+  let ncoq = ref 0 in
   let summary = Hashtbl.create 16 in
   let bump k = Hashtbl.replace summary k (1 + (try Hashtbl.find summary k with Not_found -> 0)) in
-  List.iteri (fun i (ln, line) ->
-    let c = (try parse_case line with
-             | Bad m -> prerr_endline (Printf.sprintf "line %d: %s" ln m); exit 2
-             | Failure m -> prerr_endline (Printf.sprintf "line %d: %s" ln m); exit 2) in
-    let sample = coq_out <> None && i mod stride = 0 && List.length !coq_cases < coq_max in
+  (* history independence: input digest -> first result seen in this run *)
+  let seen : (string, impl_result) Hashtbl.t = Hashtbl.create 100003 in
+  let caseno = ref 0 in
+  let eval (c : case) : verdict =
+    let i = !caseno in
+    incr caseno;
+    let sample = coq_out <> None && i mod stride = 0 && !ncoq < coq_max in
+    let add body = incr ncoq; coq_cases := (i, body) :: !coq_cases in
     match c with
-    | CKeys (stream, loc, v, res, pr) ->
+    | CKeys (stream, loc, v, res, pr, dg) ->
         let inm = in_model v loc in
         let mon = c11_monitor v loc res in
         let acc = if inm then acc_class v loc res else None in
-        let fan = int_of_nat (fanouts (split_dot loc) v) in
+        let same = (match Hashtbl.find_opt seen dg with
+          | None -> Hashtbl.add seen dg res; true
+          | Some first -> same_result first res) in
         bump ("stream " ^ stream ^ (if inm then "" else " (out of model)"));
-        Printf.printf "hist %d line %d nev 0 acc %s m:c11 %d -1 f:outofmodel %d f:embnil %d f:pruned %d f:fanouts %d\n" i ln
-          (match acc with None -> "ok" | Some d -> "div 0 " ^ class_name d)
-          (if mon then 1 else 0) (if inm then 0 else 1)
-          (if has_nil_anon_ptr v then 1 else 0) (if pr then 1 else 0) fan;
-        if sample then coq_cases := (i, Printf.sprintf "case_keys %s %s %s %b %b %b" (cval v) (cbytes loc) (cres res) inm (acc = None) mon) :: !coq_cases
+        if sample then add (Printf.sprintf "case_keys %s %s %s %b %b %b" (cval v) (cbytes loc) (cres res) inm (acc = None) mon);
+        { v_acc = (match acc with Some d -> Some (class_name d) | None -> if same then None else Some "history");
+          v_mon = mon && same; v_oom = not inm; v_embnil = has_nil_anon_ptr v; v_pruned = pr;
+          v_fan = int_of_nat (fanouts (split_dot loc) v) }
     | CTitle (inp, out) ->
         let inm = ascii inp in
         let ok = (not inm) || title_ok inp out in
         bump ("title" ^ (if inm then "" else " (out of model)"));
-        Printf.printf "hist %d line %d nev 0 acc %s m:c11 1 -1 f:outofmodel %d\n" i ln
-          (if ok then "ok" else "div 0 title") (if inm then 0 else 1);
-        if sample && inm then coq_cases := (i, Printf.sprintf "Bool.eqb (title_ok %s %s) %b" (cbytes inp) (cbytes out) ok) :: !coq_cases
+        if sample && inm then add (Printf.sprintf "Bool.eqb (title_ok %s %s) %b" (cbytes inp) (cbytes out) ok);
+        { v_acc = (if ok then None else Some "title"); v_mon = true; v_oom = not inm; v_embnil = false; v_pruned = false; v_fan = 0 }
     | CSplit (inp, out) ->
         let ok = split_ok inp out in
         bump "split";
-        Printf.printf "hist %d line %d nev 0 acc %s m:c11 1 -1 f:outofmodel 0\n" i ln
-          (if ok then "ok" else "div 0 split");
-        if sample then coq_cases := (i, Printf.sprintf "Bool.eqb (split_ok %s %s) %b" (cbytes inp) (clist cbytes out) ok) :: !coq_cases
+        if sample then add (Printf.sprintf "Bool.eqb (split_ok %s %s) %b" (cbytes inp) (clist cbytes out) ok);
+        { v_acc = (if ok then None else Some "split"); v_mon = true; v_oom = false; v_embnil = false; v_pruned = false; v_fan = 0 } in
+  (* histories: a starting line and the event lines after it *)
+  let hist_no = ref 0 in
+  let flush (hln : int) (vs : verdict list) =   (* vs in order: header case, then events *)
+    match vs with
+    | [] -> ()
+    | _ ->
+        let nev = List.length vs - 1 in
+        (* position in the operation list (header = 0, k-th event = k+1) of the first divergence *)
+        let rec first_div k = function
+          | [] -> None
+          | v :: r -> (match v.v_acc with Some c -> Some (k, c) | None -> first_div (k + 1) r) in
+        (* index of the first failing EVENT (0-based), -1 if the header case fails or nothing fails *)
+        let rec first_fail k = function
+          | [] -> None
+          | v :: r -> if v.v_mon then first_fail (k + 1) r else Some k in
+        let ff = first_fail 0 vs in
+        let sum f = List.fold_left (fun a v -> a + f v) 0 vs in
+        let b2i b = if b then 1 else 0 in
+        Printf.printf "hist %d line %d nev %d acc %s m:c11 %d %d f:outofmodel %d f:embnil %d f:pruned %d f:fanouts %d\n"
+          !hist_no hln nev
+          (match first_div 0 vs with None -> "ok" | Some (k, c) -> Printf.sprintf "div %d %s" k c)
+          (match ff with None -> 1 | Some _ -> 0)
+          (match ff with None -> -1 | Some k -> k - 1)
+          (sum (fun v -> b2i v.v_oom)) (sum (fun v -> b2i v.v_embnil)) (sum (fun v -> b2i v.v_pruned)) (sum (fun v -> v.v_fan));
+        incr hist_no in
+  let cur_line = ref 0 in
+  let cur = ref [] in
+  List.iter (fun (ln, line) ->
+    let (starts, c) = (try parse_case line with
+             | Bad m -> prerr_endline (Printf.sprintf "line %d: %s" ln m); exit 2
+             | Failure m -> prerr_endline (Printf.sprintf "line %d: %s" ln m); exit 2) in
+    if starts then begin
+      flush !cur_line (List.rev !cur);
+      cur := []; cur_line := ln
+    end else if !cur = [] then begin
+      prerr_endline (Printf.sprintf "line %d: event before any history" ln); exit 2
+    end;
+    cur := eval c :: !cur
   ) lines;
+  flush !cur_line (List.rev !cur);
   Hashtbl.iter (fun k n -> prerr_endline (Printf.sprintf "keys_driver: %s: %d" k n)) summary;
   match coq_out with
   | None -> ()
@@ -215,7 +273,7 @@ let () =
       output_string oc "From GV Require Import Keys.Model Keys.Spec Keys.Monitors.\nOpen Scope N_scope.\n";
       output_string oc "Fixpoint hx_go (len : nat) (n : N) (acc : bytes) : bytes :=\n  match len with O => acc | S l => hx_go l (N.div n 256) (N.modulo n 256 :: acc) end.\nDefinition hx (len : nat) (n : N) : bytes := hx_go len n [].\n";
       output_string oc "Definition case_keys (v : gval) (loc : bytes) (r : impl_result) (inm acc mon : bool) : bool :=\n  Bool.eqb (in_model v loc) inm &&\n  Bool.eqb (if in_model v loc then match acc_class v loc r with None => true | Some _ => false end else true) acc &&\n  Bool.eqb (c11_monitor v loc r) mon.\n";
-      List.iteri (fun k (i, body) -> Printf.fprintf oc "(* case_%d = case %d of the trace *)\nDefinition case_%d : bool := %s.\n" k i k body) cases;
+      List.iteri (fun k (i, body) -> Printf.fprintf oc "(* case_%d = call %d of the trace *)\nDefinition case_%d : bool := %s.\n" k i k body) cases;
       Printf.fprintf oc "Definition all_cases : list bool := %s.\n"
         (clist (fun k -> "case_" ^ string_of_int k) (List.init (List.length cases) (fun k -> k)));
       (* ordinals of the sample, not trace indices: unary nat numerals must stay small *)
